@@ -12,7 +12,7 @@
 //   * in between (an entry point that increments a version without changing anything): model level only.
 // What the abstract model cannot know (iteration order of a hash table, capacity chosen by a growth) is read from
 // the real container after the call and written into the operation line.
-// VF_PART: 0 HashSet, 1 HashMap, 2 TreeSet/TreeMap, 3 HashMultiMap, 4 Array (index iterators) / SegmentedArray, 5 DataTable
+// VF_PART: 0 HashSet, 1 HashMap, 2 TreeSet, 6 TreeMultiSet / TreeMap, 3 HashMultiMap, 4 Array (index iterators) / SegmentedArray, 5 DataTable
 #ifndef VF_PART
 #define VF_PART 0
 #endif
@@ -30,6 +30,7 @@
 #include <algorithm>
 #include <functional>
 #include <memory>
+#include <optional>
 #include <set>
 #include <map>
 #include <unistd.h>
@@ -617,7 +618,7 @@ static void runHash(Ctx& c, Rng& rng, const std::string& suite, const std::strin
 #endif
 
 // ============================================================================================================
-#if VF_PART == 2
+#if VF_PART == 2 || VF_PART == 6
 // ---------------------------------------------------------------- TreeSet / TreeMap
 
 struct XTSet : public momo::TreeSetSettings {
@@ -1652,10 +1653,11 @@ struct ArrRun {
 	void itAdd(int h, long long dd, int d) {
 		Slot sl = slot(h);
 		bool live = sl.arr >= 0;
-		bool valid = live ? ((long long)sl.idx + dd >= 0 && (size_t)((long long)sl.idx + dd) <= ref[sl.arr].size()) : dd == 0;
+		__int128 target = (__int128)sl.idx + (__int128)dd;      // exact; callers keep it inside ptrdiff_t (see run())
+		bool valid = live ? (target >= 0 && target <= (__int128)ref[sl.arr].size()) : dd == 0;
 		Slot r = sl;
 		std::string ex = guard([&] { if (isB(sl)) { r.ib += (ptrdiff_t)dd; } else { r.ia += (ptrdiff_t)dd; } });
-		if (ex.empty()) { r.idx = (size_t)((long long)sl.idx + dd); slot(d) = r; }
+		if (ex.empty()) { r.idx = (size_t)target; slot(d) = r; }
 		std::string opline = fmt("itadd %d %lld %d", h, dd, d);
 		j.line(opline, (ex.empty() ? "ok " + std::string(r.arr < 0 ? "null" : "i" + std::to_string(r.idx)) : ex) + tail());
 		j.judge(valid ? -1 : 1, ex, same(), opline, live ? "iterator moved outside [begin, end]" : "null iterator moved", live ? (isB(sl) ? "SegmentedArray iterator" : "Array iterator") : "null iterator");
@@ -1702,7 +1704,11 @@ struct ArrRun {
 						fill(); hBegin(o, 0); itAdd(0, (long long)start, 1); itAdd(1, dd, 2);
 						if (slot(2).arr >= 0 && slot(1).idx + dd == slot(2).idx) itDeref(2);
 					}
-				for (long long dd : { (long long)0x7FFFFFFFFFFFFFFFll, (long long)(-0x7FFFFFFFFFFFFFFFll - 1), 1ll << 40, -(1ll << 40) }) { fill(); hEnd(o, 0); itAdd(0, dd, 1); }
+				// extreme differences.  `index + diff` is kept inside ptrdiff_t: ArrayIndexIterator::operator+= forms that sum in
+				// signed arithmetic (ArrayUtility.h:75), so GetEnd() += PTRDIFF_MAX on a non-empty array is a signed overflow
+				// inside momo (reported as a finding; UBSan would stop the whole run on it)
+				for (long long dd : { (long long)0x7FFFFFFFFFFFFFFFll - (long long)n, (long long)(-0x7FFFFFFFFFFFFFFFll - 1), 1ll << 40, -(1ll << 40) }) { fill(); hEnd(o, 0); itAdd(0, dd, 1); }
+				fill(); hBegin(o, 0); itAdd(0, (long long)0x7FFFFFFFFFFFFFFFll, 1);
 				fill(); hNull(0, o); itAdd(0, 0, 1); itAdd(0, 1, 1); itAdd(0, -1, 1); itDeref(0); hNull(1, o); itPair(0, 1, false); itPair(0, 1, true);
 				fill(); hBegin(o, 0); hEnd(o, 1); itPair(0, 1, false); itPair(1, 0, true); hNull(2, o); itPair(0, 2, false); itPair(2, 1, true); itDeref(1); itDeref(0);
 				// an iterator made before the array shrinks keeps its index: moving checks against the current count
@@ -1746,6 +1752,556 @@ struct ArrRun {
 };
 #endif
 
+// ============================================================================================================
+#if VF_PART == 5
+// ---------------------------------------------------------------- DataTable: row references, selections, hash pointers / bounds
+// Two tables of one type (unique hash index on column a, multi hash index on column b).  Column `id` holds the identity
+// of the raw block as the model counts it (table A: 0, 1, …; table B: 1000000, …); contents are printed as id:a:b in row order.
+// Property-level record: per version cell (change / remove version of each table) the serial number of the last entry point
+// after which the rows differed (`mod` of the change version) or a row that had been present was gone (`mod` of the remove
+// version); entry points that increment a version without such a change are recorded as `touch` (model level only).
+
+template<bool tKeep>
+struct XData : public momo::DataSettings<tKeep> {
+	static const momo::CheckMode checkMode = momo::CheckMode::exception;
+	static const momo::ExtraCheckMode extraCheckMode = momo::ExtraCheckMode::nothing;
+	static const bool checkVersion = true;
+};
+
+struct TRow { int ca; int cb; int cid; };
+MOMO_DATA_COLUMN_STRUCT(TRow, ca);
+MOMO_DATA_COLUMN_STRUCT(TRow, cb);
+MOMO_DATA_COLUMN_STRUCT(TRow, cid);
+typedef momo::DataStructDefault<int> DynStruct;
+MOMO_DATA_COLUMN_STRING_TAG(DynStruct, int, dynA);
+MOMO_DATA_COLUMN_STRING_TAG(DynStruct, int, dynB);
+MOMO_DATA_COLUMN_STRING_TAG(DynStruct, int, dynId);
+
+struct CLStatic {      // static column list, rows keep their number (Remove(range) / Assign mark rows in place)
+	typedef momo::DataColumnListStatic<TRow, momo::DataColumnInfo<TRow>, MM, XData<true>> List;
+	static const bool keep = true;
+	static const decltype(ca)& A() { return ca; }
+	static const decltype(cb)& B() { return cb; }
+	static const decltype(cid)& ID() { return cid; }
+	static List make() { return List(); }
+};
+struct CLDynamic {     // dynamic column list, no row numbers (Remove(range) / Assign go through a hash set of raws)
+	typedef momo::DataColumnList<momo::DataColumnTraits<DynStruct>, MM, momo::DataItemTraits<MM>, XData<false>> List;
+	static const bool keep = false;
+	static const decltype(dynA)& A() { return dynA; }
+	static const decltype(dynB)& B() { return dynB; }
+	static const decltype(dynId)& ID() { return dynId; }
+	static List make() { List l; l.Add(dynA); l.Add(dynB); l.Add(dynId); return l; }
+};
+
+static std::string ilist(const std::vector<int>& v) {
+	std::string r = "[";
+	for (size_t i = 0; i < v.size(); ++i) { if (i) r += ' '; r += std::to_string(v[i]); }
+	return r + "]";
+}
+
+template<typename CL>
+struct TableRun {
+	typedef typename CL::List ColumnList;
+	typedef momo::DataTable<ColumnList> Table;
+	typedef typename Table::Row Row;
+	typedef typename Table::RowReference Ref;
+	typedef typename Table::ConstRowReference CRef;
+	typedef typename Table::Selection Sel;
+	typedef typename Table::RowHashPointer HPtr;
+	typedef typename Table::RowHashBounds HBounds;
+	typedef typename Table::template Equality<int> Eq;
+	typedef typename Table::TryResult TryResult;
+	static const size_t SMAX = ~size_t{0};
+
+	Ctx& c; Rng& rng; Suite s; Judge j; Mods mods;
+	std::unique_ptr<Table> obj[2];
+	momo::DataUniqueHashIndex uIdx[2]; momo::DataMultiHashIndex mIdx[2];
+	int fresh[2] = { 0, 1000000 };
+
+	struct RowV { int id, a, b; size_t num; bool operator==(const RowV& x) const { return id == x.id && a == x.a && b == x.b && num == x.num; } };
+	typedef std::vector<RowV> Rows;
+	struct Snap { Rows rows[2]; bool operator==(const Snap& x) const { return rows[0] == x.rows[0] && rows[1] == x.rows[1]; } };
+	// a row reference; `born`: serial number of the state its version keeper was taken in
+	struct RSlot { std::optional<Ref> ref; int tbl = -1; uint64_t born = 0; int id = -1; std::string kind; };
+	// a selection, or the row pointer of FindByUniqueHash (`ptr`)
+	struct SSlot { std::optional<Sel> sel; std::optional<HPtr> ptr; int tbl = -1; uint64_t born = 0; std::vector<int> ids; };
+	// the row bounds of FindByMultiHash; `ids` in table order (the model's order), `real` in the order of the real bounds
+	struct BSlot { std::optional<HBounds> mb; int tbl = -1; uint64_t born = 0; std::vector<int> ids, real; };
+	std::vector<RSlot> rs; std::vector<SSlot> ss; std::vector<BSlot> bs;
+
+	TableRun(Ctx& c_, Rng& r, const std::string& suite, const std::string& cfg)
+		: c(c_), rng(r), s(c_, suite, "model ver fam=table"), j(c_, s, cfg) {}
+
+	Table& O(int o) { return *obj[o]; }
+	static char on(int o) { return o ? 'B' : 'A'; }
+	const void* ccell(int o) { return &O(o).mCrew.GetChangeVersion(); }
+	const void* rcell(int o) { return &O(o).mCrew.GetRemoveVersion(); }
+	static size_t numOf(const CRef& r, size_t dflt) { if constexpr (CL::keep) return r.GetNumber(); else return dflt; }
+	Rows rowsOf(int o) {
+		Rows v; const Table& t = O(o);
+		for (size_t i = 0; i < t.GetCount(); ++i) { CRef r = t[i]; RowV x; x.id = r[CL::ID()]; x.a = r[CL::A()]; x.b = r[CL::B()]; x.num = numOf(r, i); v.push_back(x); }
+		return v;
+	}
+	static std::string rowsStr(const Rows& v) {
+		std::string r = "[";
+		for (size_t i = 0; i < v.size(); ++i) { if (i) r += ' '; r += fmt("%d:%d:%d", v[i].id, v[i].a, v[i].b); }
+		return r + "]";
+	}
+	Snap snap() { Snap x; x.rows[0] = rowsOf(0); x.rows[1] = rowsOf(1); return x; }
+	std::string tail() {
+		Snap x = snap();
+		for (int o = 0; o < 2; ++o) for (size_t i = 0; i < x.rows[o].size(); ++i)
+			if (x.rows[o][i].num != i) c.fail("C15 %s: row %zu of table %c reports row number %zu; history: %s", j.cfg.c_str(), i, on(o), x.rows[o][i].num, j.scen.c_str());
+		return " | A=" + rowsStr(x.rows[0]) + " B=" + rowsStr(x.rows[1]);
+	}
+	// bumpC / bumpR: the entry point (called on table o) increments the change / remove version, by the source
+	void note(const Snap& before, int o, bool bumpC, bool bumpR) {
+		Snap after = snap();
+		++mods.serial;
+		for (int t = 0; t < 2; ++t) {
+			bool changed = !(after.rows[t] == before.rows[t]);
+			bool gone = false;
+			for (const RowV& x : before.rows[t]) { bool there = false; for (const RowV& y : after.rows[t]) if (y.id == x.id) there = true; if (!there) gone = true; }
+			if (changed) mods.mod[ccell(t)] = mods.serial; else if (t == o && bumpC) mods.touch[ccell(t)] = mods.serial;
+			if (gone) mods.mod[rcell(t)] = mods.serial; else if (t == o && bumpR) mods.touch[rcell(t)] = mods.serial;
+		}
+	}
+	void newScenario() {
+		rs.clear(); ss.clear(); bs.clear(); mods.clear();
+		obj[0].reset(); obj[1].reset();
+		for (int o = 0; o < 2; ++o) {
+			obj[o].reset(new Table(CL::make()));
+			uIdx[o] = O(o).AddUniqueHashIndex(CL::A());
+			mIdx[o] = O(o).AddMultiHashIndex(CL::B());
+		}
+		fresh[0] = 0; fresh[1] = 1000000;
+		j.begin(); j.line("new", "ok" + tail());
+	}
+	Row makeRow(int o, int a, int b, int id) { Row row = O(o).NewRow(); row[CL::A()] = a; row[CL::B()] = b; row[CL::ID()] = id; return row; }
+	RSlot& rslot(int d) { if ((int)rs.size() <= d) rs.resize(d + 1); return rs[d]; }
+	SSlot& sslot(int d) { if ((int)ss.size() <= d) ss.resize(d + 1); return ss[d]; }
+	BSlot& bslot(int d) { if ((int)bs.size() <= d) bs.resize(d + 1); return bs[d]; }
+	void storeRef(int d, const Ref& r, int tbl, uint64_t born, int id, const std::string& kind) {
+		RSlot& sl = rslot(d); sl.ref.reset(); sl.ref.emplace(r); sl.tbl = tbl; sl.born = born; sl.id = id; sl.kind = kind;
+	}
+	bool hasRef(int h) const { return h < (int)rs.size() && rs[h].ref.has_value(); }
+	bool hasSel(int h) const { return h < (int)ss.size() && (ss[h].sel.has_value() || ss[h].ptr.has_value()); }
+	bool isSel(int h) const { return h < (int)ss.size() && ss[h].sel.has_value(); }
+	bool hasB(int h) const { return h < (int)bs.size() && bs[h].mb.has_value(); }
+
+	struct Verdict { int must; std::string why; };
+	Verdict refVerdict(const RSlot& sl, int target) {
+		if (mods.stale(rcell(sl.tbl), sl.born)) return { 1, "stale row reference" };
+		if (target >= 0 && sl.tbl != target) return { 1, "row reference of another table" };
+		if (mods.touched(rcell(sl.tbl), sl.born)) return { 0, "version incremented without a change" };
+		return { -1, "" };
+	}
+	void verdictLine(const Verdict& v, const std::string& ex, const Snap& before, const std::string& opline, const std::string& res, const std::string& kind) {
+		j.line(opline, (ex.empty() ? res : ex) + tail());
+		j.judge(v.must, ex, before == snap(), opline, v.why, kind);
+	}
+
+	// ---- entry points without a handle
+	void hAt(int o, size_t i, int d) {
+		Snap before = snap(); bool valid = i < O(o).GetCount(); int id = -1;
+		std::string ex = guard([&] { Ref r = O(o)[i]; id = r[CL::ID()]; storeRef(d, r, o, mods.serial, id, "reference from operator[]"); });
+		verdictLine({ valid ? -1 : 1, "out-of-range row number" }, ex, before, fmt("at %c %zu %d", on(o), i, d), fmt("ok r%d", id), "row number");
+	}
+	void addResult(int o, const Snap& before, const TryResult& res, bool replaces, int d, const std::string& opline, const char* name) {
+		bool ok = !!res;
+		if (ok) ++fresh[o];
+		note(before, o, ok, ok && replaces);
+		int id = res.rowReference[CL::ID()];
+		storeRef(d, res.rowReference, o, mods.serial, id, ok ? "reference returned by an insertion" : "reference to the row that refused an insertion");
+		j.mut(std::string(name) + (ok ? "" : " (refused by the unique index)"));
+		j.line(opline, fmt("ok %d r%d", (int)ok, id) + tail());
+	}
+	void mAdd(int o, int a, int b, int d) {
+		Snap before = snap(); int id = fresh[o];
+		TryResult res = rng.below(2) ? O(o).TryAdd(makeRow(o, a, b, id)) : O(o).TryAddRow(CL::A() = a, CL::B() = b, CL::ID() = id);
+		addResult(o, before, res, false, d, fmt("add %c %d %d %d", on(o), a, b, d), "TryAdd");
+	}
+	void mInsert(int o, size_t i, int a, int b, int d) {
+		Snap before = snap(); int id = fresh[o]; bool valid = i <= O(o).GetCount();
+		std::string opline = fmt("insrow %c %zu %d %d %d", on(o), i, a, b, d);
+		std::optional<TryResult> res;
+		std::string ex = guard([&] { res.emplace(O(o).TryInsert(i, makeRow(o, a, b, id))); });
+		if (ex.empty()) { addResult(o, before, *res, false, d, opline, "TryInsert"); j.judge(valid ? -1 : 1, ex, true, opline, "out-of-range row number", "row number"); }
+		else verdictLine({ valid ? -1 : 1, "out-of-range row number" }, ex, before, opline, "", "row number");
+	}
+	void mUpdRow(int o, size_t i, int a, int b, int d) {
+		Snap before = snap(); int id = fresh[o]; bool valid = i < O(o).GetCount();
+		std::string opline = fmt("updrow %c %zu %d %d %d", on(o), i, a, b, d);
+		std::optional<TryResult> res;
+		std::string ex = guard([&] { res.emplace(O(o).TryUpdate(i, makeRow(o, a, b, id))); });
+		if (ex.empty()) { addResult(o, before, *res, true, d, opline, "TryUpdate(row number, row)"); j.judge(valid ? -1 : 1, ex, true, opline, "out-of-range row number", "row number"); }
+		else verdictLine({ valid ? -1 : 1, "out-of-range row number" }, ex, before, opline, "", "row number");
+	}
+	void mRmNum(int o, size_t i) {
+		Snap before = snap(); bool valid = i < O(o).GetCount();
+		std::string ex = guard([&] { if (rng.below(2)) O(o).Remove(i); else { Row x = O(o).Extract(i); } });
+		if (ex.empty()) { note(before, o, true, true); j.mut("Remove / Extract(row number)"); }
+		std::string opline = fmt("rmnum %c %zu", on(o), i);
+		j.line(opline, (ex.empty() ? std::string("ok") : ex) + tail());
+		j.judge(valid ? -1 : 1, ex, !ex.empty() ? before == snap() : true, opline, "out-of-range row number", "row number");
+	}
+	void mClear(int o) { Snap b = snap(); O(o).Clear(); note(b, o, true, true); j.mut("Clear"); j.line(fmt("clear %c", on(o)), "ok" + tail()); }
+	void mRmIf(int o, int m, int r) {
+		Snap b = snap();
+		size_t n = O(o).Remove([m, r](CRef ref) { return ref[CL::A()] % m == r; });
+		note(b, o, true, true); j.mut(n ? "Remove(filter, some)" : "Remove(filter, none)");
+		j.line(fmt("rmif %c %d %d", on(o), m, r), fmt("ok %zu", n) + tail());
+	}
+	void quietReserve(int o) { O(o).Reserve(O(o).GetCount() + 40); c.stats.count("entry point: Reserve (no operation line: the model has no such step)"); }
+
+	// ---- uses of a row reference
+	void uGet(int h) {
+		RSlot sl = rs[h]; Snap before = snap(); int id = -1;
+		int variant = (int)rng.below(CL::keep ? 4 : 3);
+		std::string ex = guard([&] {
+			switch (variant) {
+			case 0: id = (*sl.ref)[CL::ID()]; break;
+			case 1: id = sl.ref->Get(CL::ID()); break;
+			case 2: (void)sl.ref->GetRaw(); id = sl.id; break;
+			default: if constexpr (CL::keep) { (void)sl.ref->GetNumber(); } id = sl.id; break;
+			} });
+		if (ex.empty() && id != sl.id) c.fail("C15 %s: an accepted row reference reads row id %d, it was made for row id %d; history: %s", j.cfg.c_str(), id, sl.id, j.scen.c_str());
+		verdictLine(refVerdict(sl, -1), ex, before, fmt("get %d", h), fmt("ok r%d", sl.id), sl.kind);
+	}
+	void uUpdB(int h, int o, int b) {
+		RSlot sl = rs[h]; Snap before = snap(); Verdict v = refVerdict(sl, o);
+		std::string ex = guard([&] { if (rng.below(2)) { TryResult r = O(o).TryUpdate(*sl.ref, CL::B(), (int)b); (void)r; } else (void)O(o).Update(*sl.ref, CL::B(), (int)b); });
+		if (ex.empty()) { note(before, o, true, false); j.mut("TryUpdate / Update(reference, column, item)"); }
+		std::string opline = fmt("updb %c %d %d", on(o), h, b);
+		j.line(opline, (ex.empty() ? std::string("ok") : ex) + tail());
+		j.judge(v.must, ex, !ex.empty() ? before == snap() : true, opline, v.why, sl.kind);
+	}
+	void uRmRef(int h, int o) {
+		RSlot sl = rs[h]; Snap before = snap(); Verdict v = refVerdict(sl, o);
+		std::string ex = guard([&] { if (rng.below(2)) O(o).Remove(*sl.ref); else { Row x = O(o).Extract(*sl.ref); } });
+		if (ex.empty()) { note(before, o, true, true); j.mut("Remove / Extract(reference)"); }
+		std::string opline = fmt("rmref %c %d", on(o), h);
+		j.line(opline, (ex.empty() ? std::string("ok") : ex) + tail());
+		j.judge(v.must, ex, !ex.empty() ? before == snap() : true, opline, v.why, sl.kind);
+	}
+	void uMkMut(int h, int o, int d) {
+		RSlot sl = rs[h]; Snap before = snap(); Verdict v = refVerdict(sl, o);
+		std::string ex = guard([&] { Ref r = O(o).MakeMutableReference(*sl.ref); storeRef(d, r, o, mods.serial, sl.id, "reference from MakeMutableReference"); });
+		verdictLine(v, ex, before, fmt("mkmut %c %d %d", on(o), h, d), fmt("ok r%d", sl.id), sl.kind);
+	}
+	void uNewRow(int h) {
+		RSlot sl = rs[h]; Snap before = snap(); Verdict v = refVerdict(sl, -1);
+		std::string ex = guard([&] { CRef cr = *sl.ref; Row row = O(sl.tbl).NewRow(cr); });
+		verdictLine(v, ex, before, fmt("newrow %d", h), "ok", sl.kind);
+	}
+	Verdict listVerdict(const std::vector<int>& hs, int o) {
+		Verdict v{ -1, "" };
+		for (int h : hs) { Verdict x = refVerdict(rs[h], o); if (x.must > v.must) v = x; }
+		return v;
+	}
+	// Remove(begin, end) (keep = false) / Assign(begin, end) (keep = true) over a list of references
+	void uRmRefs(int o, bool keep, const std::vector<int>& hs, std::function<void()> realCall = nullptr) {
+		Snap before = snap(); Verdict v = listVerdict(hs, o);
+		std::vector<Ref> refs; for (int h : hs) refs.push_back(*rs[h].ref);
+		std::string ex = guard([&] { if (realCall) realCall(); else if (keep) O(o).Assign(refs.begin(), refs.end()); else O(o).Remove(refs.begin(), refs.end()); });
+		if (ex.empty()) { note(before, o, true, true); j.mut(keep ? "Assign(begin, end)" : "Remove(begin, end)"); }
+		std::string opline = fmt("rmrefs %c %d", on(o), (int)keep);
+		for (int h : hs) opline += fmt(" %d", h);
+		j.line(opline, (ex.empty() ? std::string("ok") : ex) + tail());
+		j.judge(v.must, ex, !ex.empty() ? before == snap() : true, opline, v.why, hs.empty() ? "empty range" : rs[hs[0]].kind + " (range)");
+	}
+
+	// ---- selections and row pointers
+	void hSelect(int o, int m, int r, int d) {
+		Sel x = O(o).Select([m, r](CRef ref) { return ref[CL::A()] % m == r; });
+		SSlot& sl = sslot(d); sl.ptr.reset(); sl.sel.reset(); sl.ids.clear();
+		for (size_t i = 0; i < x.GetCount(); ++i) sl.ids.push_back(x[i][CL::ID()]);
+		sl.sel.emplace(std::move(x)); sl.tbl = o; sl.born = mods.serial;
+		j.line(fmt("select %c %d %d %d", on(o), m, r, d), "ok " + ilist(sl.ids) + tail());
+	}
+	void hFindU(int o, int v, int d) {
+		int item = v;
+		HPtr p = O(o).FindByUniqueHash(uIdx[o], Eq(CL::A(), item));
+		SSlot& sl = sslot(d); sl.ptr.reset(); sl.sel.reset(); sl.ids.clear();
+		if (!!p) sl.ids.push_back((*p)[CL::ID()]);
+		sl.ptr.emplace(p); sl.tbl = o; sl.born = mods.serial;
+		j.line(fmt("findu %c %d %d", on(o), v, d), "ok " + ilist(sl.ids) + tail());
+	}
+	bool selStale(const SSlot& sl) { return mods.stale(rcell(sl.tbl), sl.born); }
+	bool selTouched(const SSlot& sl) { return mods.touched(rcell(sl.tbl), sl.born); }
+	std::string selKind(const SSlot& sl) { return sl.ptr ? "row pointer of FindByUniqueHash" : "selection"; }
+	void uSelAt(int h, size_t i, int d) {
+		SSlot& sl = ss[h]; Snap before = snap(); bool valid = i < sl.ids.size();
+		std::string ex = guard([&] {
+			int id = valid ? sl.ids[i] : -1;
+			if (sl.ptr) { if (i == 0 && rng.below(2)) { Ref r = **sl.ptr; storeRef(d, r, sl.tbl, sl.born, id, "reference from a row pointer"); } else { Ref r = (*sl.ptr)[i]; storeRef(d, r, sl.tbl, sl.born, id, "reference from a row pointer"); } }
+			else { Ref r = (*sl.sel)[i]; storeRef(d, r, sl.tbl, sl.born, id, "reference from a selection"); } });
+		// operator[] of a selection does not look at the rows: a stale selection still hands out (stale) references
+		Verdict v = !valid ? Verdict{ 1, "out-of-range selection index" } : (selStale(sl) || selTouched(sl)) ? Verdict{ 0, "reference taken out of a stale selection (rejected when it is used)" } : Verdict{ -1, "" };
+		verdictLine(v, ex, before, fmt("selat %d %zu %d", h, i, d), valid ? fmt("ok r%d", sl.ids[i]) : std::string("ok"), selKind(sl));
+	}
+	Verdict storeVerdict(const SSlot& sl, const RSlot& r, bool idxOk) {
+		if (mods.stale(rcell(r.tbl), r.born)) return { 1, "stale row reference" };
+		if (r.tbl != sl.tbl) return { 1, "row reference of another table" };
+		if (!idxOk) return { 1, "out-of-range selection index" };
+		if (mods.touched(rcell(r.tbl), r.born)) return { 0, "version incremented without a change" };
+		return { -1, "" };
+	}
+	void uSelSet(int h, size_t i, int r) {
+		SSlot& sl = ss[h]; RSlot ref = rs[r]; Snap before = snap(); Verdict v = storeVerdict(sl, ref, i < sl.ids.size());
+		std::string ex = guard([&] { sl.sel->Set(i, *ref.ref); });
+		if (ex.empty() && i < sl.ids.size()) sl.ids[i] = ref.id;
+		verdictLine(v, ex, before, fmt("selset %d %zu %d", h, i, r), "ok " + ilist(sl.ids), ref.kind + " stored into a selection");
+	}
+	void uSelAdd(int h, int r) {
+		SSlot& sl = ss[h]; RSlot ref = rs[r]; Snap before = snap(); Verdict v = storeVerdict(sl, ref, true);
+		std::string ex = guard([&] { sl.sel->Add(*ref.ref); });
+		if (ex.empty()) sl.ids.push_back(ref.id);
+		verdictLine(v, ex, before, fmt("seladd %d %d", h, r), "ok " + ilist(sl.ids), ref.kind + " stored into a selection");
+	}
+	void uSelIns(int h, size_t i, int r) {
+		SSlot& sl = ss[h]; RSlot ref = rs[r]; Snap before = snap(); Verdict v = storeVerdict(sl, ref, i <= sl.ids.size());
+		std::string ex = guard([&] { sl.sel->Insert(i, *ref.ref); });
+		if (ex.empty() && i <= sl.ids.size()) sl.ids.insert(sl.ids.begin() + i, ref.id);
+		verdictLine(v, ex, before, fmt("selins %d %zu %d", h, i, r), "ok " + ilist(sl.ids), ref.kind + " stored into a selection");
+	}
+	void uSelRm(int h, size_t i, size_t n) {
+		SSlot& sl = ss[h]; Snap before = snap(); bool valid = i <= sl.ids.size() && n <= sl.ids.size() - i;
+		std::string ex = guard([&] { if (n == 1 && rng.below(2)) sl.sel->Remove(i); else sl.sel->Remove(i, n); });
+		if (ex.empty() && valid) sl.ids.erase(sl.ids.begin() + i, sl.ids.begin() + i + n);
+		verdictLine({ valid ? -1 : 1, "out-of-range selection index / count" }, ex, before, fmt("selrm %d %zu %zu", h, i, n), "ok " + ilist(sl.ids), "selection index");
+	}
+	// Sort / Group by columns (on a copy, which carries the same version keeper) and the binary searches read every row
+	void uSelRead(int h) {
+		SSlot& sl = ss[h]; Snap before = snap();
+		bool nonEmpty = !sl.ids.empty();
+		Verdict v = (nonEmpty && selStale(sl)) ? Verdict{ 1, "stale selection" } : (nonEmpty && selTouched(sl)) ? Verdict{ 0, "version incremented without a change" } : Verdict{ -1, "" };
+		int item = 11;
+		std::string ex = guard([&] {
+			switch (rng.below(4)) {
+			case 0: { Sel t = *sl.sel; t.Sort(CL::A()); break; }
+			case 1: { Sel t = *sl.sel; t.Group(CL::B()); break; }
+			case 2: (void)sl.sel->GetLowerBound(Eq(CL::A(), item)); break;
+			default: (void)sl.sel->GetUpperBound(Eq(CL::A(), item)); break;
+			} });
+		verdictLine(v, ex, before, fmt("selread %d", h), "ok", "selection");
+	}
+	// table.Remove / Assign(selection.GetBegin() + i, selection.GetBegin() + i + n): for the model the references are taken out
+	// of the selection first (slots dBase…)
+	void uRmSelRange(int h, size_t i, size_t n, int o, bool keep, int dBase) {
+		SSlot& sl = ss[h];
+		if (!sl.sel || i + n > sl.ids.size()) return;
+		std::vector<int> hs;
+		for (size_t k = 0; k < n; ++k) {
+			Ref r = (*sl.sel)[i + k];
+			storeRef(dBase + (int)k, r, sl.tbl, sl.born, sl.ids[i + k], "reference from a selection");
+			j.line(fmt("selat %d %zu %d", h, i + k, dBase + (int)k), fmt("ok r%d", sl.ids[i + k]) + tail());
+			hs.push_back(dBase + (int)k);
+		}
+		Sel& sel = *sl.sel;
+		uRmRefs(o, keep, hs, [&, i, n, o, keep] {
+			auto b = momo::internal::UIntMath<>::Next(sel.GetBegin(), i), e = momo::internal::UIntMath<>::Next(sel.GetBegin(), i + n);
+			if (keep) O(o).Assign(b, e); else O(o).Remove(b, e); });
+	}
+
+	// ---- row bounds of a multi hash index
+	void hFindM(int o, int v, int d) {
+		int item = v;
+		HBounds x = O(o).FindByMultiHash(mIdx[o], Eq(CL::B(), item));
+		BSlot& sl = bslot(d); sl.mb.reset(); sl.ids.clear(); sl.real.clear();
+		for (size_t k = 0; k < x.GetCount(); ++k) sl.real.push_back(x[k][CL::ID()]);
+		for (const RowV& r : rowsOf(o)) if (r.b == v) sl.ids.push_back(r.id);
+		std::vector<int> s1 = sl.real, s2 = sl.ids; std::sort(s1.begin(), s1.end()); std::sort(s2.begin(), s2.end());
+		if (s1 != s2) c.fail("C15 %s: FindByMultiHash(b == %d) on table %c yields rows %s, a scan finds %s; history: %s", j.cfg.c_str(), v, on(o), ilist(s1).c_str(), ilist(s2).c_str(), j.scen.c_str());
+		sl.mb.emplace(x); sl.tbl = o; sl.born = mods.serial;
+		j.line(fmt("findm %c %d %d", on(o), v, d), "ok " + ilist(s2) + tail());
+	}
+	void uMbAt(int h, size_t i, int d) {
+		BSlot& sl = bs[h]; Snap before = snap(); bool valid = i < sl.ids.size();
+		size_t realIdx = i;
+		if (valid) realIdx = (size_t)(std::find(sl.real.begin(), sl.real.end(), sl.ids[i]) - sl.real.begin());
+		Verdict v = !valid ? Verdict{ 1, "out-of-range bounds index" } : mods.stale(ccell(sl.tbl), sl.born) ? Verdict{ 1, "stale hash bounds" }
+			: mods.touched(ccell(sl.tbl), sl.born) ? Verdict{ 0, "version incremented without a change" } : Verdict{ -1, "" };
+		std::string ex = guard([&] { Ref r = (*sl.mb)[realIdx]; storeRef(d, r, sl.tbl, sl.born, valid ? sl.ids[i] : -1, "reference from hash bounds"); });
+		verdictLine(v, ex, before, fmt("mbat %d %zu %d", h, i, d), "ok", "row bounds of FindByMultiHash");
+	}
+
+	// ------------------------------------------------------------------------------------------------ enumeration
+	static const int NSTATE = 3, NHANDLE = 11, NOP = 24;
+	void build(int st) {
+		newScenario();
+		if (st == 1) { mAdd(0, 10, 5, 30); mAdd(1, 10, 5, 30); }
+		if (st == 2) { int bsv[5] = { 5, 5, 6, 6, 7 }; for (int k = 0; k < 5; ++k) mAdd(0, 10 + k, bsv[k], 30); mAdd(1, 10, 5, 30); mAdd(1, 11, 6, 30); }
+	}
+	// returns 'R' (reference in rs[0]), 'S' (selection in ss[0]), 'P' (row pointer in ss[0]), 'B' (bounds in bs[0]) or 0
+	char makeHandle(int hk, int st) {
+		size_t n = O(0).GetCount();
+		switch (hk) {
+		case 0: if (st < 1) return 0; hAt(0, 0, 0); return 'R';
+		case 1: if (st < 2) return 0; hAt(0, n - 1, 0); return 'R';
+		case 2: mAdd(0, 99, 5, 0); return 'R';
+		case 3: if (st < 1) return 0; hAt(1, 0, 0); return 'R';
+		case 4: hSelect(0, 1, 0, 0); return 'S';
+		case 5: hSelect(0, 2, 0, 0); return 'S';
+		case 6: hFindU(0, 10, 0); return 'P';
+		case 7: hFindM(0, 5, 0); return 'B';
+		case 8: if (st < 1) return 0; hSelect(0, 1, 0, 1); uSelAt(1, 0, 0); return 'R';
+		case 9: if (st < 1) return 0; hFindM(0, 5, 1); uMbAt(1, 0, 0); return 'R';
+		default: if (st < 1) return 0; mAdd(0, 10, 8, 0); return 'R';                  // refused: the reference denotes the existing row
+		}
+	}
+	bool applyOp(int op, int st) {
+		size_t n = O(0).GetCount();
+		switch (op) {
+		case 0: return true;
+		case 1: mAdd(0, 50, 5, 31); return true;
+		case 2: if (n < 1) return false; mAdd(0, 10, 9, 31); return true;                 // refused: nothing happens
+		case 3: mInsert(0, 0, 51, 6, 31); return true;
+		case 4: if (n < 2) return false; mUpdRow(0, 1, 52, 6, 31); return true;           // a row is replaced
+		case 5: if (n < 2) return false; mUpdRow(0, 1, 10, 6, 31); return true;           // refused
+		case 6: if (n < 1) return false; hAt(0, n - 1, 20); uUpdB(20, 0, 77); return true;
+		case 7: if (n < 1) return false; hAt(0, n - 1, 20); uUpdB(20, 0, O(0)[n - 1][CL::B()]); return true;   // same item: change version moves, nothing changes
+		case 8: if (n < 2) return false; mRmNum(0, 1); return true;
+		case 9: if (n < 1) return false; mRmNum(0, 0); return true;
+		case 10: if (n < 1) return false; hAt(0, n - 1, 20); uRmRef(20, 0); return true;
+		case 11: mClear(0); return true;
+		case 12: mRmIf(0, 2, 1); return true;
+		case 13: mRmIf(0, 1000, 999); return true;                                        // nothing removed: both versions move
+		case 14: if (n < 2) return false; hAt(0, 1, 20); uRmRefs(0, false, { 20 }); return true;
+		case 15: uRmRefs(0, false, {}); return true;                                      // empty range: both versions move
+		case 16: if (n < 2) return false; { std::vector<int> hs; for (size_t i = 0; i < n; ++i) { hAt(0, n - 1 - i, 20 + (int)i); hs.push_back(20 + (int)i); } uRmRefs(0, true, hs); } return true;   // Assign: same rows, reversed
+		case 17: if (n < 2) return false; hAt(0, 0, 20); uRmRefs(0, true, { 20, 20 }); return true;   // Assign: only the first row stays
+		case 18: mAdd(1, 60, 5, 31); return true;                                         // the OTHER table
+		case 19: mClear(1); return true;
+		case 20: if (O(1).GetCount() < 1) return false; mRmNum(1, 0); return true;
+		case 21: hSelect(0, 1, 0, 22); hFindM(0, 5, 22); hFindU(0, 10, 23); if (n) hAt(0, 0, 24); (void)O(0).SelectCount(); return true;   // const entry points only
+		case 22: quietReserve(0); return true;
+		default: mAdd(0, 70, 5, 31); mRmNum(0, O(0).GetCount() - 1); return true;         // a row comes and goes: every older reference is invalid
+		}
+	}
+	void applyUse(char kind, int u) {
+		size_t n = O(0).GetCount();
+		if (kind == 'R') {
+			switch (u) {
+			case 0: uGet(0); break;
+			case 1: uUpdB(0, 0, 77); break;
+			case 2: uUpdB(0, 1, 78); break;
+			case 3: uRmRef(0, 0); break;
+			case 4: uRmRef(0, 1); break;
+			case 5: uMkMut(0, 0, 40); if (hasRef(40)) uGet(40); break;
+			case 6: uMkMut(0, 1, 40); break;
+			case 7: uNewRow(0); break;
+			case 8: uRmRefs(0, false, { 0 }); break;
+			case 9: uRmRefs(0, true, { 0 }); break;
+			case 10: uRmRefs(1, false, { 0 }); break;
+			case 11: hSelect(0, 1, 0, 20); uSelAdd(20, 0); break;
+			case 12: hSelect(0, 1, 0, 20); uSelSet(20, 0, 0); break;
+			case 13: hSelect(0, 1, 0, 20); uSelIns(20, 1, 0); break;
+			case 14: hSelect(1, 1, 0, 20); uSelAdd(20, 0); break;
+			case 15: if (n) { hAt(0, 0, 21); uRmRefs(0, false, { 21, 0 }); } break;       // a fresh reference first, then the one under test
+			case 16: if (n) { hAt(0, 0, 21); uRmRefs(0, true, { 21, 0 }); } break;
+			default: break;
+			}
+		} else if (kind == 'S') {
+			size_t k = ss[0].ids.size();
+			switch (u) {
+			case 0: uSelAt(0, 0, 40); if (hasRef(40)) uGet(40); break;
+			case 1: uSelAt(0, k, 40); break;
+			case 2: uSelRead(0); break;
+			case 3: uSelRm(0, 0, 1); break;
+			case 4: uSelRm(0, 1, SMAX); break;
+			case 5: uSelRm(0, k, SMAX - (k ? k - 1 : 0)); break;                          // index + count wraps around to a small number
+			case 6: if (n) { hAt(0, 0, 21); uSelSet(0, 0, 21); } break;
+			case 7: if (n) { hAt(0, 0, 21); uSelAdd(0, 21); uSelIns(0, 99, 21); } break;
+			case 8: if (k) uRmSelRange(0, k - 1, 1, 0, false, 41); break;
+			case 9: if (k) uRmSelRange(0, 0, k, 0, true, 41); break;
+			case 10: if (k) { uSelAt(0, k - 1, 40); uRmRef(40, 0); } break;
+			case 11: if (k) { uSelAt(0, 0, 40); uUpdB(40, 0, 79); uMkMut(40, 0, 41); } break;
+			default: break;
+			}
+		} else if (kind == 'P') {
+			switch (u) {
+			case 0: uSelAt(0, 0, 40); if (hasRef(40)) uGet(40); break;
+			case 1: uSelAt(0, 1, 40); break;
+			case 2: uSelAt(0, 0, 40); if (hasRef(40)) uRmRef(40, 0); break;
+			default: break;
+			}
+		} else {
+			size_t k = bs[0].ids.size();
+			switch (u) {
+			case 0: uMbAt(0, 0, 40); if (hasRef(40)) uGet(40); break;
+			case 1: uMbAt(0, k, 40); break;
+			case 2: if (k) { uMbAt(0, k - 1, 40); if (hasRef(40)) uRmRef(40, 0); } break;
+			default: break;
+			}
+		}
+	}
+	void enumerate() {
+		for (int st = 0; st < NSTATE; ++st)
+			for (int op = 0; op < NOP; ++op)
+				for (int hk = 0; hk < NHANDLE; ++hk) {
+					int nuse = (hk == 6) ? 3 : (hk == 7) ? 3 : (hk == 4 || hk == 5) ? 12 : 17;
+					for (int u = 0; u < nuse; ++u) {
+						build(st);
+						char kind = makeHandle(hk, st);
+						if (!kind) continue;
+						if (!applyOp(op, st)) continue;
+						applyUse(kind, u);
+						c.stats.count("triples executed");
+					}
+				}
+	}
+	void randomHistory(int steps) {
+		newScenario();
+		const int N = 5;
+		for (int i = 0; i < steps; ++i) {
+			int o = (int)rng.below(2), d = (int)rng.below(N), h = (int)rng.below(N), h2 = (int)rng.below(N);
+			size_t n = O(o).GetCount();
+			int a = (int)rng.below(12), b = (int)rng.below(4);
+			size_t any = rng.below(6) == 0 ? (rng.below(2) ? SMAX - rng.below(3) : n + 1 + rng.below(3)) : rng.below(n + 1);
+			switch (rng.below(30)) {
+			case 0: case 1: case 2: case 3: mAdd(o, a, b, d); break;
+			case 4: mInsert(o, any, a, b, d); break;
+			case 5: mUpdRow(o, any, a, b, d); break;
+			case 6: hAt(o, any, d); break;
+			case 7: mRmNum(o, any); break;
+			case 8: if (rng.below(4) == 0) mClear(o); break;
+			case 9: mRmIf(o, 3 + (int)rng.below(3), (int)rng.below(3)); break;
+			case 10: if (hasRef(h)) uGet(h); break;
+			case 11: if (hasRef(h)) uUpdB(h, o, b); break;
+			case 12: if (hasRef(h)) uRmRef(h, o); break;
+			case 13: if (hasRef(h)) uMkMut(h, o, d); break;
+			case 14: if (hasRef(h)) uNewRow(h); break;
+			case 15: { std::vector<int> hs; for (int k = 0; k < N; ++k) if (hasRef(k) && rng.below(3) == 0) hs.push_back(k); if (rng.below(3) == 0) uRmRefs(o, rng.below(2) != 0, hs); break; }
+			case 16: hSelect(o, 1 + (int)rng.below(3), 0, d); break;
+			case 17: hFindU(o, a, d); break;
+			case 18: if (hasSel(h)) uSelAt(h, rng.below(ss[h].ids.size() + 2), d); break;
+			case 19: if (isSel(h) && hasRef(h2)) uSelSet(h, rng.below(ss[h].ids.size() + 2), h2); break;
+			case 20: if (isSel(h) && hasRef(h2)) uSelAdd(h, h2); break;
+			case 21: if (isSel(h) && hasRef(h2)) uSelIns(h, rng.below(ss[h].ids.size() + 2), h2); break;
+			case 22: if (isSel(h)) { size_t k = ss[h].ids.size(); uSelRm(h, rng.below(k + 2), rng.below(5) == 0 ? SMAX - rng.below(k + 2) : rng.below(k + 2)); } break;
+			case 23: if (isSel(h)) uSelRead(h); break;
+			case 24: hFindM(o, b, d); break;
+			case 25: if (hasB(h)) uMbAt(h, rng.below(bs[h].ids.size() + 2), d); break;
+			case 26: if (isSel(h) && !ss[h].ids.empty() && rng.below(2) == 0) { size_t k = ss[h].ids.size(); size_t i = rng.below(k); uRmSelRange(h, i, 1 + rng.below(k - i), o, rng.below(2) != 0, N + 1); } break;
+			case 27: quietReserve(o); break;
+			default: mAdd(o, 20 + (int)rng.below(40), b, d); break;
+			}
+		}
+		c.stats.count("random histories");
+	}
+};
+
+template<typename CL>
+static void runTable(Ctx& c, Rng& rng, const std::string& suite, const std::string& cfg) {
+	TableRun<CL> r(c, rng, suite, cfg);
+	r.enumerate();
+	int n = c.thorough ? 600 : 100;
+	for (int i = 0; i < n; ++i) r.randomHistory(c.thorough ? 200 : 100);
+}
+#endif
+
 int main(int argc, char** argv) {
 	Ctx c = parseArgs(argc, argv);
 	Rng rng(c.seed * 0x1000 + 15 + VF_PART * 0x100);
@@ -1759,6 +2315,7 @@ int main(int argc, char** argv) {
 #elif VF_PART == 2
 	runTree<TSetAd<momo::TreeTraits<uint32_t, false>>>(c, rng, "tset_default", "TreeSet<default node>");
 	runTree<TSetAd<momo::TreeTraits<uint32_t, false, momo::TreeNode<4, 2>>>>(c, rng, "tset_small", "TreeSet<TreeNode<4,2>>");
+#elif VF_PART == 6
 	runTree<TSetAd<momo::TreeTraits<uint32_t, true, momo::TreeNode<4, 1>>>>(c, rng, "tmultiset_small", "TreeMultiSet<TreeNode<4,1>>");
 	runTree<TMapAd<momo::TreeTraits<uint32_t, false, momo::TreeNode<6, 3>>>>(c, rng, "tmap_small", "TreeMap<TreeNode<6,3>>");
 #elif VF_PART == 3
@@ -1773,6 +2330,9 @@ int main(int argc, char** argv) {
 		{ ArrRun<A0, S1> r(c, rng, "arr_heap_segsqrt", "Array<index iterators> / SegmentedArray<sqrt,1>"); r.run(c.thorough); }
 		{ ArrRun<A4, S2> r(c, rng, "arr_internal4_segcnst", "Array<internal capacity 4> / SegmentedArray<cnst,2>"); r.run(c.thorough); }
 	}
+#elif VF_PART == 5
+	runTable<CLStatic>(c, rng, "table_static_rownumbers", "DataTable<static columns, keepRowNumber>");
+	runTable<CLDynamic>(c, rng, "table_dynamic_nonumbers", "DataTable<dynamic columns, no row numbers>");
 #endif
 	return c.finish();
 }
